@@ -64,6 +64,40 @@ impl V {
         }
     }
     pub fn is_simple(&self) -> bool { matches!(self, V::Null) }
+    /// JSON text of the value (used to build objects through the parser)
+    pub fn write_text(&self, out: &mut String) {
+        match self {
+            V::Null => out.push_str("null"),
+            V::Bool(b) => out.push_str(if *b { "true" } else { "false" }),
+            V::Num(s) => out.push_str(s),
+            V::Str(s) => write_json_string(s, out),
+            V::Arr(a) => { out.push('['); for (i, x) in a.iter().enumerate() { if i > 0 { out.push_str(", "); } x.write_text(out); } out.push(']'); }
+            V::Obj(es) => write_object_text(es, out),
+        }
+    }
+}
+
+pub fn write_json_string(s: &str, out: &mut String) {
+    out.push('"');
+    for c in s.chars() {
+        match c {
+            '"' => out.push_str("\\\""),
+            '\\' => out.push_str("\\\\"),
+            c if (c as u32) < 0x20 => out.push_str(&format!("\\u{:04x}", c as u32)),
+            c => out.push(c),
+        }
+    }
+    out.push('"');
+}
+pub fn write_object_text(es: &[(String, V)], out: &mut String) {
+    out.push('{');
+    for (i, (k, v)) in es.iter().enumerate() {
+        if i > 0 { out.push_str(", "); }
+        write_json_string(k, out);
+        out.push_str(": ");
+        v.write_text(out);
+    }
+    out.push('}');
 }
 
 pub fn entries_to_json(es: &[(String, V)]) -> J { J::Arr(es.iter().map(|(k, v)| J::Arr(vec![J::Str(k.clone()), v.to_json()])).collect()) }
@@ -108,6 +142,9 @@ pub enum Op {
     FromVec { r: usize, es: Vec<(String, V)> },
     FromIterEntries { r: usize, es: Vec<(String, V)> },
     FromIterPairs { r: usize, es: Vec<(String, V)> },
+    /// the register becomes the object parsed from the JSON text of `es` (its code map is kept
+    /// until the next mutation, so that the mapped key queries can be checked too)
+    FromParse { r: usize, es: Vec<(String, V)> },
     ExtendEntries { r: usize, es: Vec<(String, V)> },
     ExtendPairs { r: usize, es: Vec<(String, V)> },
     /// extend register r with a clone of the entries of register s
@@ -129,20 +166,20 @@ impl Op {
         match self {
             Op::Push { .. } => "push", Op::PushEntry { .. } => "push_entry", Op::PushFront { .. } => "push_front", Op::PushEntryFront { .. } => "push_entry_front",
             Op::Insert { .. } => "insert", Op::InsertFront { .. } => "insert_front", Op::Remove { .. } => "remove", Op::RemoveAt { .. } => "remove_at", Op::RemoveUnique { .. } => "remove_unique",
-            Op::Sort { .. } => "sort", Op::FromVec { .. } => "from_vec", Op::FromIterEntries { .. } => "from_iter_entries", Op::FromIterPairs { .. } => "from_iter_pairs",
+            Op::Sort { .. } => "sort", Op::FromVec { .. } => "from_vec", Op::FromIterEntries { .. } => "from_iter_entries", Op::FromIterPairs { .. } => "from_iter_pairs", Op::FromParse { .. } => "from_parse",
             Op::ExtendEntries { .. } => "extend_entries", Op::ExtendPairs { .. } => "extend_pairs", Op::ExtendFrom { .. } => "extend_from", Op::IterMutSet { .. } => "iter_mut_set",
             Op::GetMutSet { .. } => "get_mut_set", Op::GetUniqueMutSet { .. } => "get_unique_mut_set", Op::GetOrInsertWith { .. } => "get_or_insert_with",
             Op::GetMutOrInsertWith { .. } => "get_mut_or_insert_with", Op::CloneTo { .. } => "clone_to", Op::IntoIterRebuild { .. } => "into_iter_rebuild", Op::Fresh { .. } => "fresh",
         }
     }
-    pub const NAMES: [&'static str; 24] = ["push", "push_entry", "push_front", "push_entry_front", "insert", "insert_front", "remove", "remove_at", "remove_unique", "sort", "from_vec",
+    pub const NAMES: [&'static str; 25] = ["push", "push_entry", "push_front", "push_entry_front", "insert", "insert_front", "remove", "remove_at", "remove_unique", "sort", "from_vec",
         "from_iter_entries", "from_iter_pairs", "extend_entries", "extend_pairs", "extend_from", "iter_mut_set", "get_mut_set", "get_unique_mut_set", "get_or_insert_with",
-        "get_mut_or_insert_with", "clone_to", "into_iter_rebuild", "fresh"];
+        "get_mut_or_insert_with", "clone_to", "into_iter_rebuild", "fresh", "from_parse"];
     pub fn index(&self) -> usize { Op::NAMES.iter().position(|n| *n == self.name()).unwrap() }
     pub fn reg(&self) -> usize {
         match self {
             Op::Push { r, .. } | Op::PushEntry { r, .. } | Op::PushFront { r, .. } | Op::PushEntryFront { r, .. } | Op::Insert { r, .. } | Op::InsertFront { r, .. } | Op::Remove { r, .. }
-            | Op::RemoveAt { r, .. } | Op::RemoveUnique { r, .. } | Op::Sort { r } | Op::FromVec { r, .. } | Op::FromIterEntries { r, .. } | Op::FromIterPairs { r, .. } | Op::ExtendEntries { r, .. }
+            | Op::RemoveAt { r, .. } | Op::RemoveUnique { r, .. } | Op::Sort { r } | Op::FromVec { r, .. } | Op::FromIterEntries { r, .. } | Op::FromIterPairs { r, .. } | Op::FromParse { r, .. } | Op::ExtendEntries { r, .. }
             | Op::ExtendPairs { r, .. } | Op::ExtendFrom { r, .. } | Op::IterMutSet { r, .. } | Op::GetMutSet { r, .. } | Op::GetUniqueMutSet { r, .. } | Op::GetOrInsertWith { r, .. }
             | Op::GetMutOrInsertWith { r, .. } | Op::CloneTo { r, .. } | Op::IntoIterRebuild { r } | Op::Fresh { r } => *r,
         }
@@ -155,7 +192,7 @@ impl Op {
         }
     }
     pub fn entries(&self) -> Option<&Vec<(String, V)>> {
-        match self { Op::FromVec { es, .. } | Op::FromIterEntries { es, .. } | Op::FromIterPairs { es, .. } | Op::ExtendEntries { es, .. } | Op::ExtendPairs { es, .. } => Some(es), _ => None }
+        match self { Op::FromVec { es, .. } | Op::FromIterEntries { es, .. } | Op::FromIterPairs { es, .. } | Op::FromParse { es, .. } | Op::ExtendEntries { es, .. } | Op::ExtendPairs { es, .. } => Some(es), _ => None }
     }
     pub fn cancel(&self) -> Option<Cancel> { match self { Op::Insert { c, .. } | Op::InsertFront { c, .. } | Op::Remove { c, .. } => Some(*c), _ => None } }
 
@@ -193,7 +230,7 @@ impl Op {
             "push_front" => Op::PushFront { r, k: k()?, v: v()? }, "push_entry_front" => Op::PushEntryFront { r, k: k()?, v: v()? },
             "insert" => Op::Insert { r, k: k()?, v: v()?, c: c()? }, "insert_front" => Op::InsertFront { r, k: k()?, v: v()?, c: c()? },
             "remove" => Op::Remove { r, k: k()?, c: c()? }, "remove_at" => Op::RemoveAt { r, i: u("index")? }, "remove_unique" => Op::RemoveUnique { r, k: k()? },
-            "sort" => Op::Sort { r }, "from_vec" => Op::FromVec { r, es: es()? }, "from_iter_entries" => Op::FromIterEntries { r, es: es()? }, "from_iter_pairs" => Op::FromIterPairs { r, es: es()? },
+            "sort" => Op::Sort { r }, "from_vec" => Op::FromVec { r, es: es()? }, "from_iter_entries" => Op::FromIterEntries { r, es: es()? }, "from_iter_pairs" => Op::FromIterPairs { r, es: es()? }, "from_parse" => Op::FromParse { r, es: es()? },
             "extend_entries" => Op::ExtendEntries { r, es: es()? }, "extend_pairs" => Op::ExtendPairs { r, es: es()? }, "extend_from" => Op::ExtendFrom { r, s: u("src")? },
             "iter_mut_set" => Op::IterMutSet { r, i: u("index")?, v: v()? }, "get_mut_set" => Op::GetMutSet { r, k: k()?, pull: u("pull")?, v: v()? },
             "get_unique_mut_set" => Op::GetUniqueMutSet { r, k: k()?, v: v()? }, "get_or_insert_with" => Op::GetOrInsertWith { r, k: k()?, v: v()? },
@@ -342,7 +379,7 @@ pub fn gen_hist(rng: &mut Rng, max_len: usize) -> HistSc {
             9 => Op::Sort { r },
             10 => Op::FromVec { r, es: gen_entries(rng, &uni, 12) },
             11 => Op::FromIterEntries { r, es: gen_entries(rng, &uni, 8) },
-            12 => Op::FromIterPairs { r, es: gen_entries(rng, &uni, 8) },
+            12 => if rng.chance(1, 2) { Op::FromIterPairs { r, es: gen_entries(rng, &uni, 8) } } else { Op::FromParse { r, es: gen_entries(rng, &uni, 10) } },
             13 => Op::ExtendEntries { r, es: gen_entries(rng, &uni, 8) },
             14 => Op::ExtendPairs { r, es: gen_entries(rng, &uni, 8) },
             15 => Op::ExtendFrom { r, s: rng.usize_below(REGISTERS) },
@@ -392,7 +429,7 @@ pub fn hist_shrink_candidates(sc: &HistSc) -> Vec<HistSc> {
         match &mut ops[i] {
             Op::Push { v, .. } | Op::PushEntry { v, .. } | Op::PushFront { v, .. } | Op::PushEntryFront { v, .. } | Op::Insert { v, .. } | Op::InsertFront { v, .. } | Op::IterMutSet { v, .. }
             | Op::GetUniqueMutSet { v, .. } | Op::GetOrInsertWith { v, .. } => { if !v.is_simple() { *v = V::Null; changed = true; } }
-            Op::FromVec { es, .. } | Op::FromIterEntries { es, .. } | Op::FromIterPairs { es, .. } | Op::ExtendEntries { es, .. } | Op::ExtendPairs { es, .. } => {
+            Op::FromVec { es, .. } | Op::FromIterEntries { es, .. } | Op::FromIterPairs { es, .. } | Op::FromParse { es, .. } | Op::ExtendEntries { es, .. } | Op::ExtendPairs { es, .. } => {
                 if es.len() > 1 { es.pop(); changed = true; } else if es.iter().any(|e| !e.1.is_simple()) { for e in es.iter_mut() { e.1 = V::Null; } changed = true; }
             }
             _ => {}
@@ -409,7 +446,7 @@ pub fn hist_shrink_candidates(sc: &HistSc) -> Vec<HistSc> {
             match op {
                 Op::Push { k, .. } | Op::PushEntry { k, .. } | Op::PushFront { k, .. } | Op::PushEntryFront { k, .. } | Op::Insert { k, .. } | Op::InsertFront { k, .. } | Op::Remove { k, .. }
                 | Op::RemoveUnique { k, .. } | Op::GetMutSet { k, .. } | Op::GetUniqueMutSet { k, .. } | Op::GetOrInsertWith { k, .. } | Op::GetMutOrInsertWith { k, .. } => *k = rename(k),
-                Op::FromVec { es, .. } | Op::FromIterEntries { es, .. } | Op::FromIterPairs { es, .. } | Op::ExtendEntries { es, .. } | Op::ExtendPairs { es, .. } => for e in es.iter_mut() { e.0 = rename(&e.0) },
+                Op::FromVec { es, .. } | Op::FromIterEntries { es, .. } | Op::FromIterPairs { es, .. } | Op::FromParse { es, .. } | Op::ExtendEntries { es, .. } | Op::ExtendPairs { es, .. } => for e in es.iter_mut() { e.0 = rename(&e.0) },
                 _ => {}
             }
         }
